@@ -11,6 +11,15 @@ use blp1::parse_raw1;
 use blp2::{parse_dxtn, parse_raw3};
 use log::*;
 
+/// Size in bytes of the bit-packed alpha values for `pixels` pixels
+///
+/// Both factors come from the header (BLP2 stores an arbitrary byte as alpha
+/// bits), so the product is computed in 64 bits.
+fn alpha_bytes(pixels: u32, alpha_bits: u32) -> ParseResult<usize> {
+    let bytes = (pixels as u64 * alpha_bits as u64).div_ceil(8);
+    usize::try_from(bytes).map_err(|_| Error::UnexpectedEof)
+}
+
 pub fn parse_direct_content<'a, F>(
     blp_header: &BlpHeader,
     external_mipmaps: F,
